@@ -21,7 +21,7 @@ def metrics(draw, max_upem=16384):
     if asc - desc < 16:
         asc = 16 + desc
     emh = asc - desc
-    width = draw(st.one_of(st.just(0), st.just(emh), st.integers(0, int(2.5 * upem))))
+    width = draw(st.one_of(st.just(0), st.just(emh), st.integers(0, min(32000, int(2.5 * upem)))))
     linegap = draw(st.one_of(st.just(0), st.integers(0, upem // 4)))
     return {"upem": upem, "ascender": asc, "descender": desc, "width": width, "linegap": linegap}
 
@@ -36,7 +36,7 @@ def user_transform(draw, upem):
     if k == "scale":
         return [draw(st.sampled_from([0.5, 0.75, 0.9, 1.1, 1.25])), 0, 0, draw(st.sampled_from([0.5, 0.75, 0.9, 1.1, 1.25])), 0, 0]
     if k == "rotate":
-        return [round(v, 6) for v in rotate(draw(st.floats(-30, 30)))]
+        return list(rotate(float(draw(st.integers(-30, 30)))))
     if k == "skew":
         return [round(v, 6) for v in skew(draw(st.floats(-20, 20)), 0)]
     return [-1, 0, 0, 1, upem // 2, 0]
